@@ -7,3 +7,4 @@ for i in 01 02 03 04 05 06 07 08 09 10 11 12 13 14 15 16 17 18 19 20; do
   echo "C$i rc=$rc $(( $(date +%s) - start ))s $(echo "$out" | tail -1)"
   [ $rc -ne 0 ] && echo "$out" | grep -E "VIOLATION|HARNESS|bucket" | head -5
 done
+exit 0
